@@ -81,4 +81,25 @@ PROPS.update({
     },
 })
 
+PROPS.update({
+    "C07": {
+        "title": "Hiding",
+        "rule": "KZG10, Marlin, Sonic, PST13, IPA, Hyrax; seeded polynomials of all shapes, all degree-bound settings, hiding bounds h in [1, supported]. Per case the monitor observes the caller's RNG through a counting wrapper and the returned commitment state: equal seeds => identical commitment and state; 16 fresh seeds => pairwise distinct commitments; bytes drawn from the caller's RNG >= (blinded parts)*(h+2)*32 (IPA / Hyrax: one scalar per blinded part / row); blinding polynomial has exactly h+2 non-zero pairwise-distinct coefficients (PST13: degree h+1, >= h+2 terms); commitment == naive image of the polynomial + naive image of the blinding coefficients under the public gamma powers (shifted window for Sonic); proof.random_v == sum_j xi_j * r_j(z) with xi_j decoded from the recorded prover sponge trace; different blinding => different proof; a hiding request without RNG is refused; without hiding the commitment is deterministic, draws 0 bytes and equals the plain image." + DIST,
+        "required_classes": ["equal-seeds-equal-output", "rng-accounting", "fresh-seeds-distinct-commitments", "missing-rng-refused", "non-hiding-deterministic", "blinding-polynomial-shape", "commitment-is-plain-plus-blinding", "proof-blinding-value"],
+        "technique": "runtime monitoring: RNG-accounting probe + structural oracle on returned commitment state + sponge-trace replay",
+        "level_text": "Structure, freshness across seeds and RNG accounting of every blinded commitment and proof are decided from observations at the API boundary; statistical independence of the coefficients is not decidable by observation and is not claimed.",
+        "design_ref": "5 (C07)",
+        "assumptions": TRUST + ["a field element costs at least 32 bytes of RNG output (ark-ff UniformRand for 255-bit fields)"],
+    },
+    "C09": {
+        "title": "Setup and trim",
+        "rule": "Per scheme, seeded (max_degree | num_vars, supported_degree, hiding, enforced-bound list incl. unsorted / duplicated / empty / None): pairing-chain identities over every published power (randomised batching with per-index fallback) for G1, gamma-G1 and inverse G2 powers, prepared == raw elements; transparent generators (IPA, Hyrax) == independent re-derivation from the protocol seed, valid, distinct, non-identity, RNG-independent; multilinear PST: level sums pin one trapdoor point, G1/G2 tables agree, each level is the pairwise sum of the previous; trimmed keys element-wise equal to the stated windows of the parameters, shift elements == (max-d)-th (inverse) powers for exactly the sorted de-duplicated bounds; degree reports truthful (commit at supported succeeds, supported+1 refused); keys from two trims of one SRS interoperate; prepared tables are successive doublings; out-of-range trim / setup requests refused." + DIST,
+        "required_classes": ["srs-powers", "trim-faithful", "supported-degree-truthful", "trim-out-of-range-refused", "transparent-generators", "keys-interoperate", "prepared-tables"],
+        "technique": "runtime monitoring: structural invariants of key material checked through pairing / group identities against the public parameters",
+        "level_text": "Every element of every generated SRS and trimmed key is covered by an algebraic identity (pairing chains, sub-key equality, doubling tables); configurations are generated, not enumerated.",
+        "design_ref": "5 (C09)",
+        "assumptions": TRUST,
+    },
+})
+
 ALL_IDS = ["C%02d" % i for i in range(1, 20)]
